@@ -195,4 +195,185 @@ theorem sim_derefList {σ : Sh} : ∀ (l : List Obj) (s t : St), StR σ s t →
     rintro _ vs s2 t2 hR2 rfl
     exact SimAt.pure hR2 rfl
 
+/-! ### the cache -/
+
+theorem cacheR_find {σ : Sh} {ps pt : CacheEntry → Bool} :
+    ∀ {ls lt : List CacheEntry}, CacheR σ ls lt → (∀ cs ct, EntryR σ cs ct → ps cs = pt ct) →
+      match ls.find? ps, lt.find? pt with
+      | some cs, some ct => EntryR σ cs ct
+      | none, none => True
+      | _, _ => False
+  | _, _, .nil, _ => trivial
+  | _, _, .cons (cs := cs) (ct := ct) he hl, hp => by
+    simp only [List.find?_cons]
+    rw [hp cs ct he]
+    cases pt ct with
+    | true => exact he
+    | false => exact cacheR_find hl hp
+
+theorem cacheR_filter {σ : Sh} {ps pt : CacheEntry → Bool} :
+    ∀ {ls lt : List CacheEntry}, CacheR σ ls lt → (∀ cs ct, EntryR σ cs ct → ps cs = pt ct) →
+      CacheR σ (ls.filter ps) (lt.filter pt)
+  | _, _, .nil, _ => .nil
+  | _, _, .cons (cs := cs) (ct := ct) he hl, hp => by
+    simp only [List.filter_cons]
+    rw [hp cs ct he]
+    cases pt ct with
+    | true => exact .cons he (cacheR_filter hl hp)
+    | false => exact cacheR_filter hl hp
+
+theorem entry_pred {σ : Sh} (key : String) (args : List Obj) {cs ct : CacheEntry} (h : EntryR σ cs ct) :
+    (cs.key == key && keyEqList cs.args (renL σ args)) = (ct.key == key && keyEqList ct.args args) := by
+  rw [h.key, h.args, keyEqList_ren_right]
+
+theorem sim_cacheGet {σ : Sh} {s t : St} (hR : StR σ s t) (key : String) (args : List Obj) :
+    SimAt σ (cacheGet key (renL σ args)) (cacheGet key args) s t
+      (fun a b => a = b.map (fun p => (ren σ p.1, p.2))) := by
+  unfold cacheGet
+  refine SimAt.bind_read (runM_get s) (runM_get t) ?_
+  rw [hR.cfg, renL_length, hashableList_ren]
+  refine SimAt.ite (fun _ => SimAt.pure hR rfl) (fun _ => ?_)
+  refine SimAt.ite (fun _ => SimAt.pure hR rfl) (fun _ => ?_)
+  refine SimAt.ite (fun _ => SimAt.pure hR rfl) (fun _ => ?_)
+  have := cacheR_find (ps := fun c => c.key == key && keyEqList c.args (renL σ args))
+    (pt := fun c => c.key == key && keyEqList c.args args) hR.cache (fun cs ct h => entry_pred key args h)
+  revert this
+  cases List.find? (fun c => c.key == key && keyEqList c.args (renL σ args)) s.cache <;>
+    cases List.find? (fun c => c.key == key && keyEqList c.args args) t.cache <;> intro h
+  · exact SimAt.pure hR rfl
+  · exact h.elim
+  · exact h.elim
+  · refine SimAt.pure hR ?_
+    simp only [Option.map, h.result, h.output]
+
+theorem sim_cacheSet {σ : Sh} {s t : St} (hR : StR σ s t) (key : String) (args : List Obj) (res : Obj)
+    (output : List UInt8) :
+    SimAt σ (cacheSet key (renL σ args) (ren σ res) output) (cacheSet key args res output) s t (fun _ _ => True) := by
+  unfold cacheSet
+  refine SimAt.bind_read (runM_get s) (runM_get t) ?_
+  rw [hR.cfg, renL_length, hashableList_ren]
+  refine SimAt.ite (fun _ => SimAt.pure hR trivial) (fun _ => ?_)
+  refine SimAt.ite (fun _ => SimAt.pure hR trivial) (fun _ => ?_)
+  refine SimAt.ite (fun _ => SimAt.pure hR trivial) (fun _ => ?_)
+  dsimp only
+  unfold SimAt
+  rw [runM_set, runM_set]
+  refine ⟨⟨rfl, hR.extNames, hR.depth, hR.steps, hR.outs, ?_, hR.cur, hR.root, hR.size, hR.n0, hR.pos, hR.frames,
+    hR.dec⟩, trivial⟩
+  refine .cons ⟨rfl, rfl, rfl, fun x => keyEqList_ren_left σ args x⟩ ?_
+  exact cacheR_filter hR.cache (fun cs ct h => by simp only [entry_pred key args h])
+
+/-! ### calls -/
+
+theorem sim_newFrame {σ : Sh} {s t : St} (hR : StR σ s t) {nfs nft : Frame}
+    (hfr : FrameR σ t.frames.size nfs nft) (hdec : FrameDec t.frames.size nft) :
+    SimAt σ (newFrame nfs) (newFrame nft) s t (fun a b => a = sh σ b) := by
+  unfold SimAt newFrame
+  rw [runM_bind, runM_bind, runM_get, runM_get]
+  dsimp only
+  rw [runM_bind, runM_bind, runM_set, runM_set]
+  dsimp only
+  rw [runM_pure, runM_pure]
+  have hsz : sh σ t.frames.size = s.frames.size := by rw [sh_of_ge σ hR.n0, hR.size]
+  refine ⟨?_, hsz.symm⟩
+  refine { hR with size := ?_, n0 := ?_, frames := ?_, dec := ?_ }
+  · simp only [Array.size_push]; rw [hR.size]; omega
+  · simp only [Array.size_push]; exact Nat.le_succ_of_le hR.n0
+  · intro i fi hi
+    simp only [Array.getElem?_push] at hi ⊢
+    by_cases hit : i = t.frames.size
+    · subst hit
+      simp only [if_true] at hi
+      cases hi
+      exact ⟨nfs, by simp [hsz], hfr⟩
+    · simp only [hit, if_false] at hi
+      obtain ⟨fsi, hfsi, hfri⟩ := hR.frames i fi hi
+      refine ⟨fsi, ?_, hfri⟩
+      have : sh σ i ≠ s.frames.size := by
+        have := lt_of_frame hfsi
+        omega
+      simp only [this, if_false]
+      exact hfsi
+  · intro i fi hi
+    simp only [Array.getElem?_push] at hi
+    by_cases hit : i = t.frames.size
+    · subst hit
+      simp only [if_true] at hi
+      cases hi
+      exact hdec
+    · simp only [hit, if_false] at hi
+      exact hR.dec i fi hi
+
+theorem sim_bindParams {σ : Sh} (nenv : Nat) : ∀ (l : List (String × Obj)) (s t : St), StR σ s t →
+    SimAt σ (bindParams (sh σ nenv) (l.map fun pa => (pa.1, ren σ pa.2))) (bindParams nenv l) s t (QOpt σ)
+  | [], s, t, hR => SimAt.pure hR rfl
+  | (p, a) :: rest, s, t, hR => by
+    simp only [List.map_cons]
+    unfold bindParams
+    refine SimAt.bind (sim_valueOf hR a) ?_
+    rintro _ v s1 t1 hR1 ⟨rfl, _⟩
+    refine SimAt.bind (sim_createOrSet hR1 nenv p v true) ?_
+    rintro _ oerr s2 t2 hR2 rfl
+    rw [ren_isError]
+    exact SimAt.ite (fun _ => SimAt.pure hR2 rfl) (fun _ => sim_bindParams nenv rest s2 t2 hR2)
+
+theorem zip_ren (σ : Sh) (ps : List String) (as : List Obj) :
+    ps.zip (renL σ as) = (ps.zip as).map fun pa => (pa.1, ren σ pa.2) := by
+  rw [renL_eq]
+  induction ps generalizing as with
+  | nil => rfl
+  | cons p ps ih =>
+    cases as with
+    | nil => rfl
+    | cons a as => simp [List.zip_cons_cons, ih]
+
+theorem renL_getLast? (σ : Sh) (l : List Obj) : (renL σ l).getLast? = l.getLast?.map (ren σ) := by
+  rw [renL_eq]; simp
+
+theorem renL_dropLast (σ : Sh) (l : List Obj) : (renL σ l).dropLast = renL σ l.dropLast := by
+  rw [renL_eq, renL_eq]; simp
+
+/-- the last argument of a variadic call expanded when it is an array -/
+def expandLast (args : List Obj) : List Obj :=
+  match args.getLast? with
+  | some (.array els) => args.dropLast ++ els
+  | _ => args
+
+def cutArgs (p : List String) (A : List Obj) (k : Nat) : List String × List Obj × List Obj :=
+  if A.length ≥ k then (p, A.take k, A.drop k) else (p, A, [])
+
+theorem splitArgs_eq (f : FuncVal) (args : List Obj) :
+    splitArgs f args =
+      if f.variadic then cutArgs (f.params.take (f.params.length - 1)) (expandLast args) (f.params.length - 1)
+      else (f.params, args, []) := rfl
+
+theorem expandLast_ren (σ : Sh) (args : List Obj) : expandLast (renL σ args) = renL σ (expandLast args) := by
+  unfold expandLast
+  rw [renL_getLast?]
+  cases args.getLast? with
+  | none => rfl
+  | some last =>
+    cases last with
+    | array els => simp only [Option.map, ren]; rw [renL_dropLast, ← renL_append]
+    | _ => all_goals rfl
+
+theorem cutArgs_ren (σ : Sh) (p : List String) (A : List Obj) (k : Nat) :
+    cutArgs p (renL σ A) k = ((cutArgs p A k).1, renL σ (cutArgs p A k).2.1, renL σ (cutArgs p A k).2.2) := by
+  unfold cutArgs
+  rw [renL_length]
+  split
+  · simp only [renL_take, renL_drop]
+  · rfl
+
+theorem splitArgs_ren (σ : Sh) (f : FuncVal) (args : List Obj) :
+    splitArgs (renFn σ f) (renL σ args) =
+      ((splitArgs f args).1, renL σ (splitArgs f args).2.1, renL σ (splitArgs f args).2.2) := by
+  rw [splitArgs_eq, splitArgs_eq]
+  have h1 : (renFn σ f).variadic = f.variadic := rfl
+  have h2 : (renFn σ f).params = f.params := rfl
+  rw [h1, h2]
+  cases f.variadic with
+  | true => simp only [if_true]; rw [expandLast_ren, cutArgs_ren]
+  | false => rfl
+
 end Grol.R
